@@ -10,6 +10,9 @@ CONSTANTS
   MaxRounds = 1
   FixVoidSrc = TRUE
   ArmLate = {}
+  RegCtxs = {"plain"}
+  ResCtxs = {"plain"}
+  SkipUnwinding = {}
   ArgsByRef = TRUE
 INVARIANTS TypeOK CallbackOnce RightOutcome HelperFreedOnce ConvertedValueOrException PublishedResumable ArgsAsPassed NoStuckState
 CHECK_DEADLOCK FALSE
